@@ -293,3 +293,4 @@ def run(ctx):
     _run_rules(ctx)
     from .. import boundaries
     boundaries.check(ctx, 'C15.RB', 'C15')
+    boundaries.check_calls(ctx, 'C15.RC', 'C15')
